@@ -102,6 +102,50 @@ def is_near_vertical_fp(xs, ys, i, tol):
     return yb != yb or math.isinf(yb) or 4 * math.ulp(abs(yb)) > tol
 
 
+def is_inclusion_fp(xs, ys, i, q, ulps=64):
+    """The inclusion test of the foot on segment i is decided by ROUNDING for the query q: the exact foot of the
+    perpendicular lies on the segment (parameter 0 <= t <= 1, exact rational arithmetic), yet the foot the code computes in
+    doubles (cartesienne, projection_droite: evaluated here with the code's own operations) fails `proj_segment`'s box test,
+    missing the box by at most `ulps` units in the last place of the coordinate concerned. The general form of D17 (an exactly
+    horizontal segment whose ordinate -c / b does not reproduce is the case t anywhere, miss of one ulp): e.g. a segment
+    horizontal up to 1e-9 and a foot 1e-6 from one of its ends, whose ordinate differs from the end's by less than an ulp.
+    Decidable on the input floats; the code then falls back on the nearer END point."""
+    x1, y1, x2, y2 = float(xs[i]), float(ys[i]), float(xs[i + 1]), float(ys[i + 1])
+    x, y = float(q[0]), float(q[1])
+    if not all(finite(v) for v in (x1, y1, x2, y2, x, y)) or (x1 == x2 and y1 == y2):
+        return False
+    u1 = x2 - x1
+    u2 = y2 - y1
+    b = -u1
+    a = u2
+    c = -(a * x1 + b * y1)
+    if b == 0:
+        return False
+    try:
+        xv = -b
+        yv = a
+        norm = math.sqrt(xv * xv + yv * yv)
+        yb = -c / b
+        BH = ((x - 0) * xv + (y - yb) * yv) / norm
+        xp = 0 + BH * xv / norm
+        yp = yb + BH * yv / norm
+    except (ZeroDivisionError, OverflowError, ValueError):
+        return False
+    if not (finite(xp) and finite(yp)):
+        return False
+    inx = (x1 <= xp <= x2) or (x2 <= xp <= x1)
+    iny = (y1 <= yp <= y2) or (y2 <= yp <= y1)
+    if inx and iny:
+        return False
+    ux, uy = fr(x2) - fr(x1), fr(y2) - fr(y1)
+    t = ((fr(x) - fr(x1)) * ux + (fr(y) - fr(y1)) * uy) / (ux * ux + uy * uy)
+    if not (0 <= t <= 1):
+        return False
+    mx = 0.0 if inx else min(abs(xp - x1), abs(xp - x2))
+    my = 0.0 if iny else min(abs(yp - y1), abs(yp - y2))
+    return mx <= ulps * math.ulp(max(abs(x1), abs(x2), abs(xp))) and my <= ulps * math.ulp(max(abs(y1), abs(y2), abs(yp)))
+
+
 def line_d2(px, py, x1, y1, x2, y2):
     """exact squared distance from (px,py) to the LINE through (x1,y1), (x2,y2)"""
     ux, uy = x2 - x1, y2 - y1
@@ -110,7 +154,7 @@ def line_d2(px, py, x1, y1, x2, y2):
     return cr * cr / uu
 
 
-def check_fragile(X, Y, q, d, xp, yp, i, frag, reduced):
+def check_fragile(X, Y, q, d, xp, yp, i, frag, reduced, removed=()):
     """The widest behaviour the code can have when the segments `frag` are numerically vertical: on such a segment it returns
     either the distance to its LINE with a foot whose ordinate is rounding noise, or its nearer end point. None if
     (d, (xp,yp), i) is explained that way (all other segments behaving correctly, those in `reduced` as in D16 / D17)."""
@@ -125,7 +169,7 @@ def check_fragile(X, Y, q, d, xp, yp, i, frag, reduced):
     tol = TOL * max(scale_of(X, Y, q), abs(d))
     lo, hi = [], []
     for j, sg in enumerate(segs):
-        if degenerate(sg):
+        if degenerate(sg) or j in removed:
             continue
         if j in frag:
             lo.append(line_d2(qx, qy, *sg)); hi.append(end_d2(qx, qy, *sg))
@@ -191,10 +235,11 @@ NP_CONT = ("npf", "npi")          # containers whose elements are numpy scalars 
 INT_CONT = ("npi", "int")         # containers of integers (lattice stream only)
 
 
-def check_answer(X, Y, q, d, xp, yp, i, reduced=()):
+def check_answer(X, Y, q, d, xp, yp, i, reduced=(), removed=()):
     """None if (d, (xp,yp), i) is the nearest point of the polyline to q, carried by segment i,
     at distance d; else what fails. `reduced` = indices of segments replaced by their two end
-    points when the minimum is taken (used only by classify() to recognise the listed defects)."""
+    points when the minimum is taken, `removed` = indices of segments left out of the minimum (both used only by
+    classify() to recognise the listed defects; the oracle proper, spec(), passes neither)."""
     for v in (d, xp, yp):
         if not isinstance(v, (int, float)) or isinstance(v, bool) or v != v or math.isinf(v):
             return "non-finite output %r" % ([d, xp, yp],)
@@ -211,7 +256,7 @@ def check_answer(X, Y, q, d, xp, yp, i, reduced=()):
     dq = math.sqrt((qx - fr(xp)) ** 2 + (qy - fr(yp)) ** 2)
     if abs(dq - d) > tol:
         return "returned distance %r differs from the distance %r between the query and the returned point" % (d, dq)
-    m2 = min((end_d2(qx, qy, *s) if j in reduced else seg_d2(qx, qy, *s)) for j, s in enumerate(segs))
+    m2 = min([(end_d2(qx, qy, *s) if j in reduced else seg_d2(qx, qy, *s)) for j, s in enumerate(segs) if j not in removed] or [seg_d2(qx, qy, *segs[i])])
     m = math.sqrt(m2)
     if abs(m - d) > tol:
         return "not-minimal: returned distance %r, minimum distance from the query to the polyline is %r" % (d, m)
@@ -248,14 +293,19 @@ class P(Prop):
         (M, "TV.C20.mapOnTrackT_ignores_state", "the result of mapOnTrack(track, track) depends on the positions of the two tracks only, not on their analytical features / time stamps"),
         (M, "TV.C20.mapOnTrackT_empty", "a track of queries without observation: AnalyticalFeatureError (createAnalyticalFeature on the empty output)"),
         (M, "TV.C20.mapChain_calls", "chained snapping mapOnTrack(mapOnTrack(q, ref0), ref1) ...: output k is mapOnTrack(output k-1, ref k) — its dist / edge are those of the projection of the previous output's positions, not the dist / edge that output carries"),
+        (M, "TV.C20.proj_polyline_skipped_run", "a RUN of consecutive skipped segments of non-zero length going forward from an end of a kept segment: d <= distance from the query to every point of the (t+1)-th segment of the run + (t+1) * 1e-16"),
+        (M, "TV.C20.proj_polyline_skipped_run_back", "the same for a run going backward to an end of a kept segment: every point of segment w + t of the run is covered up to (r - t) * 1e-16; with the forward form and proj_polyline_min_partial every point of a polyline that has a kept segment is covered"),
+        (M, "TV.C20.vertical_zerodiv_iff", "vertical segment: ZeroDivisionError exactly when the query has the segment's abscissa and a = y2 - y1 lies between y1 and y2 (the harness predicate zerodiv_vertical); an end point otherwise"),
+        (M, "TV.C20.proj_polyline_vertical_case", "any polyline, kept vertical segments included: segment i is kept and EITHER exactly vertical, the returned point being one of its END points, OR non-vertical with the answer right once the kept vertical segments are left out (on segment i, d = |q - p|, d <= every point of every kept non-vertical segment): the model's side of the class vertical-segment"),
         (M, "TV.C20.mapOnTrackT_nearest_partial", "the property at full strength through the track form, tracks with any state: reference without kept vertical segment, at least one query -> returns; for every query the output's point lies on segment edge[j], dist[j] = distance to it, minimal over every point of every segment"),
     ]
     partial = ["proj_segment_min_partial / proj_segment_nearest_partial / proj_polyline_min_partial / proj_polyline_nearest_partial: the property is proved at full "
                "strength (point on the carrying segment, index, d = |q - p|, d minimal over every point of every segment, skipped zero-length segments included) "
                "for every NON-vertical orientation; for vertical segments the statement is false of the code (D16, pinned by test_geometry.py::testProjSegment; "
-               "proj_segment_min_fails_on_vertical, vertical_as_coded): there only the end points are covered. A skipped segment of non-zero length < 1e-16 is "
-               "covered up to 1e-16 when it touches a kept segment (proj_polyline_skipped_partial); a run of several consecutive skipped segments is not "
-               "stated. mapOnTrackT_nearest_partial carries the same statement through the track form (track objects with features / time stamps, "
+               "proj_segment_min_fails_on_vertical, vertical_as_coded, vertical_zerodiv_iff): there only the end points are covered; proj_polyline_vertical_case states what "
+               "an answer on a polyline WITH kept vertical segments still guarantees (reported segment vertical -> one of its end points; else right w.r.t. the non-vertical ones). A skipped segment of non-zero length < 1e-16 is "
+               "covered up to 1e-16 when it touches a kept segment (proj_polyline_skipped_partial), a run of k consecutive skipped segments from a kept end up to "
+               "k * 1e-16 (proj_polyline_skipped_run, proj_polyline_skipped_run_back: every maximal run touches a kept segment unless all segments are skipped). mapOnTrackT_nearest_partial carries the same statement through the track form (track objects with features / time stamps, "
                "chained calls by mapChain_calls). Exact arithmetic: IEEE rounding (D17, horizontal segments) is outside the theorems and sampled by the transfer check; "
                "the numpy form on a vertical segment (inf / nan instead of ZeroDivisionError) is IEEE-only and checked by correspondence"]
     open_statements = ["proj_segment_min (all orientations, vertical included): FALSE of the current code (D16), kept as a comment in Props/C20.lean with its refutation"]
@@ -288,9 +338,15 @@ class P(Prop):
             "distance from the query to every non-skipped segment >= 2**1024: proj_polyligne then keeps nothing against its sentinel 1e400 and raises "
             "UnboundLocalError). Sentinel stream (1 case in 41, appended): proj_polyligne / its two-sequence forms with a query coordinate inf / -inf / "
             "nan / +-1e200 / +-1e308 / +-max double, or vertices at +-1e308, kept only when out of range in that exact sense; checked against the "
-            "sentinel-faithful model bit for bit, not constrained by the oracle. Failing answers are excused only inside the listed classes: vertical-segment (D16, also its numpy form inf/nan and segments "
-            "that are vertical up to rounding, where the foot built through (0, -c / b) loses its ordinate) and horizontal-segment-fp (D17, also segments "
-            "horizontal up to 64 ulps).")
+            "sentinel-faithful model bit for bit, not constrained by the oracle. Failing answers are excused only inside the listed classes: vertical-segment (D16) and horizontal-segment-fp (D17, also segments "
+            "horizontal up to 64 ulps, and — its general form — any segment and query for which the exact foot lies on the segment while the foot computed in doubles "
+            "with the code's own operations misses the inclusion box by <= 64 ulps: is_inclusion_fp). The class vertical-segment is recognised from the CASE, not from one failure pattern: the query is projected on a "
+            "polyline with a KEPT EXACTLY VERTICAL segment (x1 == x2: b == 0, where projection_droite's special case is wrong and pinned by the test suite) and "
+            "the failing answer (d, p, i) is explained by proj_segment answering anything at all on those segments, everything else being right: i is such a "
+            "segment, or i is not and the answer is right once they are left out of the minimum (p on segment i, d = |q - p|, d minimal over the other "
+            "segments); an exception raised while such a polyline is projected on belongs to the class too (proj_segment is called on every kept segment "
+            "for every query). An index outside 0..n-2, and any failure on a polyline without kept vertical segment, are reported. Also in that class: "
+            "segments vertical up to rounding, where the foot built through (0, -c / b) loses its ordinate (near-vertical finding, recognised by check_fragile).")
     trusted = ["math.sqrt / Float.sqrt correctly rounded; the sentinel 1e400 is the double +inf (driver: 1.0 / 0.0), compared `dist < inf` as in the code "
                "(sentinel-faithful forms projPolyligneS / projPolyligneXYS, tied exactly by tie_proj_polyligne_exact); the theorems of Props/C20 are about the "
                "'no current minimum' forms, equal to them whenever every distance met is < inf (Lemmas/ProjSentinel.lean)"]
@@ -1078,6 +1134,8 @@ class P(Prop):
             return "outside"
         if out["err"] == "err:zerodiv" and any(self.zerodiv_vertical(X, Y, q[:2]) for q in Q):
             return "vertical-segment"
+        if self.kept_vertical(X, Y) and out["err"] != "err:AnalyticalFeatureError":
+            return "vertical-segment"      # the case, not the pattern (see classify); the feature-table error is not raised by a projection
         return None
 
     def mapf_rows(self, case, out):
@@ -1190,7 +1248,7 @@ class P(Prop):
         segs = segments(X, Y)
         live = [j for j, s in enumerate(segs) if not (abs(float(X[j]) - float(X[j + 1])) + abs(float(Y[j]) - float(Y[j + 1])) < 1e-16)]
         vert = [j for j in live if is_vertical(segs[j])]
-        hfp = [j for j in live if is_horizontal_fp(X, Y, j) or is_near_horizontal_fp(X, Y, j)]
+        hfp = [j for j in live if is_horizontal_fp(X, Y, j) or is_near_horizontal_fp(X, Y, j) or is_inclusion_fp(X, Y, j, q)]
         if row is None:
             return None
         d, xp, yp, i = row
@@ -1198,7 +1256,10 @@ class P(Prop):
             return "ok"
         if any(isinstance(v, float) and (v != v or math.isinf(v)) for v in (d, xp, yp)):
             # numpy form of D16: `-c / b` with b == 0 yields inf / nan instead of raising
-            return "vertical-segment" if self.zerodiv_vertical(X, Y, q) else None
+            if self.zerodiv_vertical(X, Y, q):
+                return "vertical-segment"
+            ok_i = isinstance(i, int) and not isinstance(i, bool) and i in vert
+            return "vertical-segment" if ok_i else None      # non-finite values built on a kept vertical segment (see vertical_case)
         if vert and check_answer(X, Y, q, d, xp, yp, i, reduced=vert) is None:
             return "vertical-segment"
         if hfp and check_answer(X, Y, q, d, xp, yp, i, reduced=hfp) is None:
@@ -1221,6 +1282,41 @@ class P(Prop):
         frag = [j for j in live if is_near_vertical_fp(X, Y, j, tol)]
         if frag and check_fragile(X, Y, q, d, xp, yp, i, frag, vert + hfp) is None:
             return "vertical-segment"      # numerically vertical: same flaw (the line is parametrised by its intercept (0, -c / b))
+        return self.vertical_case(X, Y, q, row, live, vert, hfp, frag)
+
+    def vertical_case(self, X, Y, q, row, live, vert, hfp, frag):
+        """The listed finding `vertical-segment` as a CASE (geometry of the input), not as one failure pattern: on a kept,
+        exactly vertical segment (b == 0) proj_segment is defective (projection_droite's special case returns (x, a): pinned by
+        the test suite), so WHATEVER it answers there is that finding. A failing answer (d, p, i) of a query belongs to the
+        class iff it is explained by proj_segment answering anything at all on the kept vertical segments and everything else
+        being right:
+          * i is a kept vertical segment (the answer is the one proj_segment built on it), or
+          * i is not, and the answer is right once the kept vertical segments are left out of the minimum (point on segment
+            i, d = |q - p|, d minimal over the other segments — fp-horizontal ones as in D17, numerically vertical ones as
+            in the near-vertical finding): the defective calls reported something not smaller.
+        An index that is not an integer in 0..n-2, or a failure that involves no vertical segment, is never in the class."""
+        if not vert:
+            return None
+        d, xp, yp, i = row
+        n = len(X)
+        if isinstance(i, bool) or not isinstance(i, int) or not (0 <= i <= n - 2):
+            return None
+        if i in vert:
+            return "vertical-segment"
+        out = [j for j in range(n - 1) if j in vert or j not in live]
+        if check_answer(X, Y, q, d, xp, yp, i, removed=out) is None:
+            return "vertical-segment"
+        if hfp and check_answer(X, Y, q, d, xp, yp, i, reduced=hfp, removed=out) is None:
+            return "vertical-segment"
+        if len(hfp) > 1 and all(isinstance(v, (int, float)) and finite(v) for v in (d, xp, yp)):
+            tol_ = TOL * max(scale_of(X, Y, q), abs(d))
+            qx, qy = fr(q[0]), fr(q[1])
+            segs = segments(X, Y)
+            S = [j for j in hfp if math.sqrt(seg_d2(qx, qy, *segs[j])) < d - tol_]
+            if S and len(S) < len(hfp) and check_answer(X, Y, q, d, xp, yp, i, reduced=S, removed=out) is None:
+                return "vertical-segment"
+        if frag and check_fragile(X, Y, q, d, xp, yp, i, frag, hfp, removed=out) is None:
+            return "vertical-segment"
         return None
 
     def zerodiv_vertical(self, X, Y, q):
@@ -1231,6 +1327,13 @@ class P(Prop):
             if x1 == x2 and y1 != y2 and float(q[0]) == x1 and min(y1, y2) <= (y2 - y1) <= max(y1, y2):
                 return True
         return False
+
+    @staticmethod
+    def kept_vertical(X, Y):
+        """the polyline has an exactly vertical segment (x1 == x2, b == 0) that proj_polyligne does not skip: proj_segment is
+        called on it for every query, whatever the query — the input of the listed finding `vertical-segment`"""
+        return any(float(X[j]) == float(X[j + 1]) and float(Y[j]) != float(Y[j + 1])
+                   and not (abs(float(X[j]) - float(X[j + 1])) + abs(float(Y[j]) - float(Y[j + 1])) < 1e-16) for j in range(len(X) - 1))
 
     def classify(self, case, impl_out, msg):
         if not msg or impl_out is None or "plumbing" in impl_out:
@@ -1244,6 +1347,12 @@ class P(Prop):
             if impl_out["err"] == "err:zerodiv" and any(self.zerodiv_vertical(X, Y, q) for (X, Y, q, _) in qs):
                 # an earlier query of a mapOnTrack(track) call / of a sequence must not hide a different failure: every
                 # query before the raising one is not observable, so the exception is all there is to classify
+                return "vertical-segment"
+            if any(self.kept_vertical(X, Y) for (X, Y, q, _) in qs):
+                # the class is the CASE: an exception raised while a polyline with a kept exactly vertical segment is
+                # projected on (proj_segment is called on that segment for every query) is the listed finding, whichever
+                # exception the defective branch raises and for whichever query; on a polyline without such a segment
+                # every exception is reported
                 return "vertical-segment"
             return None
         if case["kind"] in ("mapt", "seq") and (impl_out.get("n") != len(qs) or len(impl_out.get("rows", [])) != len(qs)):
